@@ -13,6 +13,50 @@ CTYPE_TABLES = {"__ctype_b_loc"}
 CTYPE_FUNCS = {"isspace", "isdigit", "isalpha", "isalnum", "isupper", "islower", "ispunct", "isprint", "isxdigit", "iscntrl", "isgraph"}
 
 
+class Cursors(set):
+    """a set of cursor decl ids; index_base maps an *index* cursor (an integer i used as s[i]) to the decl of the string s it
+    indexes, which the function never re-points.  s[i + k], *(s + i + k) and &s[i + k] then read / denote position k from the
+    cursor, and i++ / i += n advance it, exactly as p[k], p + k, p++ do for a pointer cursor."""
+
+    def __init__(self, *a):
+        set.__init__(self, *a)
+        self.index_base = {}
+
+
+def index_expr(e, cursors):
+    """(index cursor decl, k) if the integer expression e is i, i + k, i - k, ++i, i++ for an index cursor i"""
+    ib = getattr(cursors, "index_base", None)
+    if not ib:
+        return None
+    s = X.strip(e)
+    if s is None:
+        return None
+    if s.get("k") == "ref" and s.get("d") in ib:
+        return s["d"], 0
+    if s.get("k") == "un" and s.get("op") in ("++", "--"):
+        t = strip_ref(s["ch"][0])
+        if t is not None and t.get("d") in ib:
+            if s.get("post"):
+                return t["d"], (-1 if s["op"] == "++" else 1)
+            return t["d"], 0
+    if s.get("k") == "bin" and s.get("op") in ("+", "-") and not s.get("tp"):
+        b = index_expr(s["ch"][0], cursors)
+        k = X.const_val(s["ch"][1])
+        if b is not None and k is not None:
+            return b[0], b[1] + (k if s["op"] == "+" else -k)
+        if s["op"] == "+":
+            b = index_expr(s["ch"][1], cursors)
+            k = X.const_val(s["ch"][0])
+            if b is not None and k is not None:
+                return b[0], b[1] + k
+    return None
+
+
+def _is_base(e, cursors, d):
+    s = X.strip(e)
+    return s is not None and s.get("k") == "ref" and getattr(cursors, "index_base", {}).get(d) == s.get("d")
+
+
 def strip_ref(e):
     s = X.strip(e)
     return s if s is not None and s.get("k") == "ref" else None
@@ -23,6 +67,22 @@ def cursor_offset(e, cursors):
     s = X.strip(e)
     if s is None:
         return None
+    ib = getattr(cursors, "index_base", None)
+    if ib:
+        # s + I  /  &s[I]  for an index cursor
+        if s.get("k") == "bin" and s.get("op") == "+" and s.get("tp"):
+            for x, y in ((s["ch"][0], s["ch"][1]), (s["ch"][1], s["ch"][0])):
+                ie = index_expr(y, cursors)
+                if ie is not None and _is_base(x, cursors, ie[0]):
+                    return ie
+        if s.get("k") == "un" and s.get("op") == "&":
+            t = X.strip(s["ch"][0])
+            if t is not None and t.get("k") == "index":
+                ie = index_expr(t["ch"][1], cursors)
+                if ie is not None and _is_base(t["ch"][0], cursors, ie[0]):
+                    return ie
+        if s.get("k") in ("ref", "un") and index_expr(s, cursors) is not None:
+            return None            # the bare index is an integer, not a position in the string
     if s.get("k") == "ref" and s.get("d") in cursors:
         return s["d"], 0
     if s.get("k") == "un" and s.get("op") in ("++", "--"):
@@ -50,6 +110,9 @@ def byte_expr(e, cursors, aliases=None):
     if s.get("k") == "un" and s.get("op") == "*":
         return cursor_offset(s["ch"][0], cursors)
     if s.get("k") == "index":
+        ie = index_expr(s["ch"][1], cursors)
+        if ie is not None and _is_base(s["ch"][0], cursors, ie[0]):
+            return ie
         b = cursor_offset(s["ch"][0], cursors)
         k = X.const_val(s["ch"][1])
         if b is not None and k is not None:
@@ -188,6 +251,17 @@ def analyse(fn, cursors, entry_safe=0, justified=None, noreturn=("libast_fatal_e
         if n.get("k") == "un" and n.get("op") == "*":
             be = cursor_offset(n["ch"][0], cursors)
         elif n.get("k") == "index":
+            ie = index_expr(n["ch"][1], cursors)
+            if ie is not None and _is_base(n["ch"][0], cursors, ie[0]):
+                return ie
+            ib_ = getattr(cursors, "index_base", None)
+            if ib_:
+                # s[<something else that mentions the index cursor>]: a variable offset from the cursor
+                b0 = X.strip(n["ch"][0])
+                for d_, bd_ in ib_.items():
+                    if b0 is not None and b0.get("k") == "ref" and b0.get("d") == bd_:
+                        if any(y.get("k") == "ref" and y.get("d") == d_ for y in walk(n["ch"][1])):
+                            return (d_, None)
             b = cursor_offset(n["ch"][0], cursors)
             kk = X.const_val(n["ch"][1])
             if b is not None:
@@ -317,6 +391,14 @@ def analyse(fn, cursors, entry_safe=0, justified=None, noreturn=("libast_fatal_e
                     return put(state, d, cur - kk)
                 if n.get("op") == "=":
                     src = cursor_offset(n["ch"][1], cursors)
+                    if d in getattr(cursors, "index_base", {}):
+                        src = index_expr(n["ch"][1], cursors)
+                        if src is None and X.const_val(n["ch"][1]) != 0:
+                            if report:
+                                checked[0] += 1
+                                if not justified(n, state):
+                                    viol.append((n, "advance", "the index cursor is set to a value no comparison justifies (%s)" % X.render(n)[:40]))
+                            return put(state, d, 0)
                     if src is not None and get(state, src[0]) is not None:
                         v = get(state, src[0]) - src[1]
                         if src[1] > 0 and report:
